@@ -243,6 +243,9 @@ func (w *World) solveAll(obls []*Obl, opt SolveOpts) {
 	// render sequentially (terms are not goroutine safe: String() memoises)
 	texts := make(map[*Obl][2]string, len(obls))
 	for _, o := range obls {
+		if o.Status != "" {
+			continue // decided by an analysis, not by a solver
+		}
 		if o.Goal.Kind == KBool && o.Goal.B {
 			o.Status = "unsat"
 			o.Solver = "trivial"
